@@ -166,12 +166,13 @@ def newMemberOf (e : Event) : Option MemberContent :=
   | .ok m => some m
   | .error _ => none
 
-/-- `membership` of an arbitrary member event (as the restricted-join check reads it) -/
+/-- `membership` of an arbitrary member event (as the restricted-join check reads it): the member named exactly
+    `membership` -/
 def membershipField (ev : Event) : Option Bytes :=
   match ev.content with
   | none => none
   | some .null => some []
-  | some (.obj kvs) => let d := decString (lookupField kvs b!"membership"); if d.err then none else some d.val
+  | some (.obj kvs) => let d := decString (lookupExact kvs b!"membership"); if d.err then none else some d.val
   | some _ => none
 
 def isUnmodelled {α} (r : R α) : Bool :=
